@@ -3,6 +3,7 @@ import PharmpyModel.C20.Spec
 import PharmpyModel.C20.Cov
 import PharmpyModel.C20.Results
 import PharmpyModel.C20.Json
+import PharmpyModel.C20.Lst
 open Pharmpy Pharmpy.C20 Pharmpy.C20.Spec
 
 def bad : Sexp := .list [.atom "err", .atom "bad-op"]
@@ -182,6 +183,12 @@ def handle (req : Sexp) : Sexp :=
         .list [.list (d.indexNames.map sOptS), .list (d.index.map (fun r => .list (r.map sOpt))),
                sStrs d.cols, .list (d.cells.map (fun r => .list (r.map sOpt)))]]
     | _, _, _, _ => bad
+  | .list [.atom "lsttable", .list blocks] =>
+    match blocks.mapM (fun b => match b with
+        | .list [n, .atom v] => n.asNat?.map (fun n => (n, v))
+        | _ => none) with
+    | some bs => .list ((lstTable bs).map (fun p => .list [Sexp.ofNat p.1, .atom p.2]))
+    | none => bad
   | .list [.atom "cov2corr", rows, table] =>
     match ratRows? rows, ratPairs? table with
     | some rows, some table => .list ((cov2corr (ratOps table) rows).map (fun r => .list (r.map sRat)))
